@@ -270,6 +270,14 @@ static Verdict runInner(const Case& c)
          for(int i = 0; i < m; i++) chk("row", i, rs[i], S[i], md.lhs[i], md.rhs[i], Y[i]);
          if(basic != m) be << basic << " basic variables for " << m << " rows; ";
          e.count(be.str().empty() ? "exact_basis.consistent" : "exact_basis.inconsistent");
+         // known finding C04/forcebasic-not-enforced: the rational factorization that makes the solution basic is only
+         // performed when a refinement round found a violation (solverational.hpp: performRatfac && maxViolation > 0); a
+         // floating-point solution that is already exactly optimal is returned as it is, basic or not
+         if(basisMode && !be.str().empty() && knownKey("forcebasic-not-enforced") && sp.numRefinements() == 0)
+         {
+            e.count("excluded_known.forcebasic-not-enforced");
+            be.str("");
+         }
          if(basisMode && !be.str().empty())
          {
             v.fail("exact solve: rational solution is not the basic solution of the returned basis: " + be.str());
